@@ -128,6 +128,28 @@ Theorem C06_resize : forall q b ops,
 Proof. exact history_ok. Qed.
 Print Assumptions C06_resize.
 
+(* the per-cluster limiter map (upstreamLimiter): whatever happens to the sibling schemas, the requests for
+   schema [name] are decided exactly as by its own bucket, for which a re-sync of the spec is a Resize to the
+   values the new spec gives it (a no-op when they are unchanged) *)
+Theorem C06_sync_by_name : forall name ops u r, holds u name r ->
+  Forall (fun o => match o with USync spec => sync_ok name spec | UTry _ => True end) ops ->
+  urun u name ops = rtb_tries r (map (proj_op name) ops).
+Proof. exact sync_by_name. Qed.
+Print Assumptions C06_sync_by_name.
+
+(* ... hence the window bounds and the lower bound run ACROSS re-syncs that change, add or remove only
+   siblings: stretches end only at effective reconfigurations of the schema itself *)
+Theorem C06_sync_windows : forall name spec0 q b ops,
+  NoDup (map fst spec0) -> alookup name spec0 = Some (STb q b) ->
+  cfg_std {| qps := q; burst := b |} -> Forall (usync_std name) ops ->
+  let pops := map (proj_op name) ops in
+  let tr := model_tr (rtb_new q b) pops in
+  urun (usync ulim_new spec0) name ops = try_decisions tr /\
+  let segs := segments {| qps := q; burst := b |} [] tr in
+  all_segments closed_ok segs = true /\ all_segments open_ok segs = true /\ all_segments lower_ok segs = true.
+Proof. exact sync_windows. Qed.
+Print Assumptions C06_sync_windows.
+
 (* the model satisfies the executable specification that the check evaluates on the real decisions *)
 Theorem C06_spec_closed : forall c calls, cfg_ok c -> nonneg_calls calls ->
   closed_ok c (trace c init_st calls) = true.
@@ -194,6 +216,30 @@ Proof.
   split; [vm_compute; reflexivity|]. split; [|vm_compute; reflexivity].
   repeat constructor; simpl; lia.
 Qed.
+
+Open Scope string_scope.
+(* (qps 1, burst 3) with two siblings: a sibling is changed, one is added, one removed — the bucket keeps
+   refusing (one stretch of 10 events); only the change of "tb" itself gives a new bucket *)
+Example C06_sync_nonvacuous :
+  let spec0 := [("mi", SOther 5); ("tb", STb 1 3); ("tb2", STb 100 50)] in
+  let ops := [UTry 0; UTry 0; UTry 0; UTry 0;
+              USync [("mi", SOther 6); ("tb", STb 1 3); ("tb2", STb 100 50)]; UTry 1; UTry 1;
+              USync [("new", SOther 1); ("mi", SOther 6); ("tb", STb 1 3); ("tb2", STb 100 50)]; UTry 2; UTry 2;
+              USync [("tb", STb 1 3); ("new", SOther 1)]; UTry 3; UTry 3;
+              USync [("tb", STb 1 2); ("new", SOther 1)]; UTry 4; UTry 4; UTry 4] in
+  Forall (usync_std "tb") ops /\
+  urun (usync ulim_new spec0) "tb" ops
+  = [true; true; true; false; false; false; false; false; false; false; true; true; false] /\
+  map (fun p => List.length (snd p))
+      (segments {| qps := 1; burst := 3 |} [] (model_tr (rtb_new 1 3) (map (proj_op "tb") ops))) = [10%nat; 3%nat].
+Proof.
+  split; [|split; vm_compute; reflexivity].
+  repeat (apply Forall_cons; [first [ (simpl; lia) |
+    (split; [repeat (constructor; [simpl; intuition discriminate|]); constructor |
+             eexists; eexists; split; [reflexivity|unfold cfg_std, cfg_ok, cap, max_dur, NS; simpl; lia]]) ]|]).
+  constructor.
+Qed.
+Close Scope string_scope.
 
 Example C06_resize_nonvacuous :
   let ops := [OTry 0; OTry 0; OResize 10 1; OTry 1; OResize 5 2; OTry 2; OTry 2; OTry 2] in
